@@ -859,7 +859,7 @@ pub fn c09(tier: &str) -> ! {
     let mut rep = Report::new("C09", tier, "model_checking");
     let t = thorough(tier);
     let b = budget(tier);
-    run_families(&mut rep, c09_seq_families(tier), b.mul_f32(0.7), is_c09_clause);
+    run_families(&mut rep, c09_seq_families(tier), b.mul_f32(if t { 0.7 } else { 0.55 }), is_c09_clause);
     if t {
         run_sched(&mut rep, "liveness/p2d4", &c09_programs(), (2, 4), 16, false, 2, Duration::from_secs(1500), is_c09_clause);
         run_sched(&mut rep, "two-manual-compactions/p2d4", &c09_manual_compaction_programs(), (2, 4), 16, false, 2, Duration::from_secs(900), is_c09_clause);
@@ -867,10 +867,10 @@ pub fn c09(tier: &str) -> ! {
         run_sched(&mut rep, "iterator-creation-vs-writer/p3d5", &c09_sharp_programs(), (3, 5), 16, false, 2, Duration::from_secs(900), is_c09_clause);
         run_sched(&mut rep, "flush-into-the-key-gap-of-a-running-compaction/p2d4", &c09_gap_programs(), (2, 4), 16, false, 2, Duration::from_secs(900), is_c09_clause);
     } else {
-        run_sched(&mut rep, "liveness/p1d3", &c09_programs(), (1, 3), 4, false, 1, Duration::from_secs(15), is_c09_clause);
-        run_sched(&mut rep, "liveness-under-fault/p1d3", &c09_fault_programs(), (1, 3), 4, false, 1, Duration::from_secs(10), is_c09_clause);
-        run_sched(&mut rep, "iterator-creation-vs-writer/p2d4", &c09_sharp_programs(), (2, 4), 8, false, 1, Duration::from_secs(12), is_c09_clause);
-        run_sched(&mut rep, "flush-into-the-key-gap-of-a-running-compaction/p1d2", &c09_gap_programs(), (1, 2), 8, false, 1, Duration::from_secs(10), is_c09_clause);
+        run_sched(&mut rep, "liveness/p1d3", &c09_programs(), (1, 3), 4, false, 1, Duration::from_secs(13), is_c09_clause);
+        run_sched(&mut rep, "liveness-under-fault/p1d3", &c09_fault_programs(), (1, 3), 4, false, 1, Duration::from_secs(8), is_c09_clause);
+        run_sched(&mut rep, "iterator-creation-vs-writer/p2d4", &c09_sharp_programs(), (2, 4), 8, false, 1, Duration::from_secs(6), is_c09_clause);
+        run_sched(&mut rep, "flush-into-the-key-gap-of-a-running-compaction/p1d2", &c09_gap_programs(), (1, 2), 8, false, 1, Duration::from_secs(4), is_c09_clause);
     }
     finish_common(&mut rep);
     sched_assumptions(&mut rep);
